@@ -531,7 +531,8 @@ def image(
     # zorder = kwargs.pop("zorder", None)
 
     for binning in h2._binnings:
-        if not binning.is_regular():
+        if not binning.is_regular() or not binning.is_consecutive():
+            # (an image has equally wide, adjacent cells: gaps would put them off their bins)
             raise ValueError(
                 "Histograms with irregular bins cannot be plotted using image method."
             )
